@@ -1231,6 +1231,11 @@ class Controller:
                     )
                 )
 
+        # Requests that were waiting for an answer from this peer have failed
+        for future in self.classic_pending_commands.pop(peer_address, {}).values():
+            if not future.done():
+                future.set_result(reason)
+
         # Send a disconnection complete event
         if connection := self.classic_connections.pop(peer_address, None):
             self.send_hci_packet(
